@@ -330,6 +330,14 @@ def run(tier):
     prog = Program()
     allows_table(prog, rep)
     registry_vs_ctx(prog, rep)
+    # "valid in context" means what the registered rule decides: the rules' logic (C03 (c)) is a premise
+    from spec import context_rules as cr
+    from . import C03
+
+    sub = Report("C03", tier, "context-rule logic")
+    for fn, (spec, own, scan_test) in sorted(cr.RULES.items()):
+        C03.check_rule(prog, sub, fn, spec, scan_test)
+    rep.include(sub, "C03")
     rep.extra["exhaustive"] = True
     rep.assumptions += ["Chars/Enumerate as documented: positions are counted in code points", "the rules' own semantics are C03; the derived properties C14"]
     return rep
